@@ -40,4 +40,18 @@ def modelRep (i : RepInput) : List Nat :=
   let cfg := modelCfg i.ts.srcs
   deliverAll (shapeOf i.ts.mode) cfg i.self (stateAfter (shapeOf i.ts.mode) cfg i.ts.ops) i.before i.msgs
 
+/-- `Config.RPCPolicy` after the configuration steps (shape regenerated from cluster_config.go and the writers) -/
+def modelPolicy (srcs : List PSource) : Policy := policyOf Gen.polShape Gen.policy srcs
+
+/-- do the steps leave a table at all (`false`: nil map) -/
+def modelInstalled (srcs : List PSource) : Bool := (policyAfter Gen.polShape Gen.policy srcs).installed
+
+/-- what a remote caller observes from the server built on that `Config` (tracing off) -/
+def modelPolObs (i : PolRpcInput) : Obs :=
+  if !(Gen.serverGuarded false) || authorizeWith Gen.closure (modelPolicy i.srcs) i.trusted i.ep then .passed else .refused
+
+/-- the keyed writes of cmd/ipfs-cluster-follow, as overrides -/
+def followerWritesGen : List (String × Option Int) :=
+  (Gen.polShape.keyedWrites.filter (fun w => w.dir == "cmd/ipfs-cluster-follow")).map (fun w => (w.key, some w.value))
+
 end CV.C07
